@@ -640,7 +640,7 @@ class CellsEncoder(BaseEncoder):
         if self.target.formula:
             if self.target.formula.source[:6] == "lambda":
                 line = self.target.name + " = " + self.target.formula.source
-                if self.target.doc:
+                if self.target.doc is not None:
                     line += "\n" + quote_docstring(self.target.doc)
                 lines.append(line)
             else:
@@ -1301,15 +1301,16 @@ class LambdaAssignParser(BaseAssignParser, CellsInputDataMixin):
                 )
                 compinst.append(inst_doc)
 
-            elif isinstance(next_node, ast.Assign) and (
-                    next_node.first_token.string == "_allow_none"):
+            elif isinstance(next_node, ast.Assign):
+                # _allow_none or _is_cached
+                property_name = (next_node.first_token.string)[1:]
                 value = ast.literal_eval(self.atok.get_text(next_node.value))
-                inst_allow_none = Instruction.from_method(
+                inst_property = Instruction.from_method(
                     obj=inst,
                     method="set_property",
-                    args=("allow_none", value)
+                    args=(property_name, value)
                 )
-                compinst.append(inst_allow_none)
+                compinst.append(inst_property)
 
             next_idx = skip_blank_tokens(self.atok.tokens, next_idx + 1)
             next_node = node_from_token(self.atok, next_idx)
